@@ -13,7 +13,9 @@
 #include "common/vcommon.h"
 #include "rtrlib/rtr/rtr.h"
 
+#ifndef M_MAXREC
 #define M_MAXREC 160
+#endif
 #define M_NSRC 4
 
 struct mrec {
